@@ -70,6 +70,9 @@ type Manifest struct {
 // lets the last match win, so a member like "Permissions" would replace the
 // properly spelled one.
 func (m *Manifest) UnmarshalJSON(data []byte) error {
+	if err := checkRepeatedMembers(data, true); err != nil {
+		return err
+	}
 	raw := make(map[string]json.RawMessage)
 	if err := json.Unmarshal(data, &raw); err != nil {
 		var te *json.UnmarshalTypeError
@@ -100,6 +103,61 @@ func (m *Manifest) UnmarshalJSON(data []byte) error {
 		}
 	}
 	return nil
+}
+
+// checkRepeatedMembers returns an error if some object of the given JSON
+// document has two members with the same name or with names that differ in
+// the letter case only: decoders pick one of them (the last one, and
+// encoding/json matches names case-insensitively), another implementation can
+// pick the other one. The free-form "extra" and "features" members of the
+// manifest (top == true) are not looked into.
+func checkRepeatedMembers(data []byte, top bool) error {
+	dec := json.NewDecoder(bytes.NewReader(data))
+	dec.UseNumber()
+	var walk func(top bool) error
+	walk = func(top bool) error {
+		t, err := dec.Token()
+		if err != nil {
+			return err
+		}
+		switch t {
+		case json.Delim('{'):
+			seen := make(map[string]struct{})
+			for dec.More() {
+				t, err = dec.Token()
+				if err != nil {
+					return err
+				}
+				name, _ := t.(string)
+				folded := strings.ToLower(name)
+				if _, ok := seen[folded]; ok {
+					return fmt.Errorf("repeated member '%s'", name)
+				}
+				seen[folded] = struct{}{}
+				if top && (name == "extra" || name == "features") {
+					var skipped json.RawMessage
+					err = dec.Decode(&skipped)
+				} else {
+					err = walk(false)
+				}
+				if err != nil {
+					return err
+				}
+			}
+			_, err = dec.Token()
+			return err
+		case json.Delim('['):
+			for dec.More() {
+				if err = walk(false); err != nil {
+					return err
+				}
+			}
+			_, err = dec.Token()
+			return err
+		}
+		return nil
+	}
+	return walk(top)
 }
 
 // Ensure required interface are implemented for proper RPC bindings generation.
